@@ -189,7 +189,8 @@ class SpecGen:
     def comment(self):
         rng = self.rng
         pool = ["The thing", "Sent when x < y & z > 0", "It's a \"quoted\" word", "Line one\nline two",
-                "café — naïve", "Value is 100% certain", "See <other> for details", "a 'b' c"]
+                "café — naïve", "Value is 100% certain", "See <other> for details", "a 'b' c",
+                'The client shows "Player not found"', "ends with an apostrophe'"]
         return rng.choice(pool)
 
     def _register(self, t):
